@@ -159,3 +159,86 @@ contract(Contract(
         ("        result = prefix\n", '        result = ""\n'),
     ],
 ))
+
+
+# --------------------------------------------------------------------------- smart_quotes (tags are copied verbatim)
+from vfcore.contracts import Loop  # noqa: E402
+from vfcore.theory import Int, Ref  # noqa: E402
+from vfcore.values import FAll, FT, VList  # noqa: E402
+
+
+def finditer_model(ex, node, args, kwargs):
+    """assumed contract of re.Pattern.finditer(text): a finite sequence of match objects whose spans are well-formed,
+    non-overlapping and increasing inside the text, and group(0) is the matched slice"""
+    text = args[-1]
+    t = ex.z(text)
+    n = ex.th.uf("finditer#len", ex.th.Str, Int)(t)
+    arr = ex.th.uf("finditer#arr", ex.th.Str, z3.ArraySort(Int, Ref))(t)
+    ex.pc.append(n >= 0)
+    st, en = ex.th.uf("match_start", Ref, Int), ex.th.uf("match_end", Ref, Int)
+    L = ex.th.length(t)
+    ex.hyps.append(FAll("k", 0, n, lambda c: FT(z3.And(
+        0 <= st(z3.Select(arr, c)), st(z3.Select(arr, c)) <= en(z3.Select(arr, c)), en(z3.Select(arr, c)) <= L,
+        z3.Implies(c > 0, en(z3.Select(arr, c - 1)) <= st(z3.Select(arr, c))))), "finditer spans"))
+    ex.finditer_text = text
+    return VList(n, arr, "ref:Match")
+
+
+def match_span(ex, node, args, kwargs):
+    m = args[0]
+    st, en = ex.th.uf("match_start", Ref, Int), ex.th.uf("match_end", Ref, Int)
+    return (ex.wrap(st(m.t), "int"), ex.wrap(en(m.t), "int"))
+
+
+def match_group0(ex, node, args, kwargs):
+    m = args[0]
+    st, en = ex.th.uf("match_start", Ref, Int), ex.th.uf("match_end", Ref, Int)
+    return ex.str_slice(ex.finditer_text, ex.wrap(st(m.t), "int"), ex.wrap(en(m.t), "int"))
+
+
+contract(Contract(
+    target=SQ + ":smart_quotes",
+    props=["C08", "C04"],
+    unfold_depth=4,
+    params={"text": "str"},
+    types={"segments": "list[str]", "last_end": "int", "start": "int", "end": "int", "before_text": "str", "remaining": "str",
+           "match": "ref:Match", "srcs": "list[str]", "istag": "list[bool]"},
+    assumes=["re.Pattern.finditer yields matches with well-formed, non-overlapping, increasing spans inside the text and "
+             "group(0) == text[start:end]", "which stretches TEMPLATE_TAG_PATTERN matches is uninterpreted (bounded layer of C06)",
+             "_apply_smart_quotes_to_text is an uninterpreted function here (its callback carries relation Q; lifted by the "
+             "unchecked congruence lemma)"],
+    calls={
+        "Pattern.finditer": Callee("custom", handler=finditer_model),
+        "Match.span": Callee("custom", handler=match_span),
+        "Match.group": Callee("custom", handler=match_group0),
+        "Match.end": Callee("custom", handler=lambda ex, node, args, kwargs: ex.wrap(ex.th.uf("match_end", Ref, Int)(args[0].t), "int")),
+        "_apply_smart_quotes_to_text": Callee("uf", ret="str", sig=["text"]),
+    },
+    ghost={"srcs": "[]", "istag": "[]"},
+    hooks=[
+        ("after", "call:segments.append#0", "srcs.append(before_text); istag.append(False)"),
+        ("after", "call:segments.append#1", "srcs.append(text[start:end]); istag.append(True)"),
+        ("after", "call:segments.append#2", "srcs.append(remaining); istag.append(False)"),
+    ],
+    defs={"mend(m)": "call('Match.end', m)",
+          "piece_ok(k)": "ite(istag[k], segments[k] == srcs[k], segments[k] == call('_apply_smart_quotes_to_text', srcs[k]))"},
+    loops={0: Loop(inv={
+        "lens": "len(srcs) == len(segments) and len(istag) == len(segments)",
+        "cursor": "0 <= last_end and last_end <= len(text) and implies(_i > 0, last_end == mend(_it0[_i - 1]))"
+                  " and implies(_i == 0, last_end == 0)",
+        # the source pieces tile the text up to the cursor, in order
+        "tiling": "joinr('', srcs, 0, len(srcs)) == text[0:last_end]",
+        # every piece is either a tag copied verbatim or the rewrite of the prose between two tags
+        "pieces": "all(piece_ok(k) for k in range(len(segments)))",
+    }, modifies=["srcs", "istag"], decreases="len(_it0) - _i")},
+    ensures={
+        "tiles_whole_text": "joinr('', srcs, 0, len(srcs)) == old('text') and len(srcs) == len(segments)",
+        "tags_verbatim_prose_rewritten": "all(piece_ok(k) for k in range(len(segments)))",
+        "joined": "result == joinr('', segments, 0, len(segments))",
+    },
+    canaries=[
+        ("        segments.append(match.group(0))\n", "        segments.append(_apply_smart_quotes_to_text(match.group(0)))\n", None, ["pieces", "tags_verbatim"]),
+        ("            before_text = text[last_end:start]", "            before_text = text[last_end:end]", None, ["tiling"]),
+        ("    if last_end < len(text):\n", "    if last_end < len(text) - 1:\n", None, ["tiles_whole_text"]),
+    ],
+))
